@@ -1,4 +1,6 @@
+mod alloc;
 mod base;
+mod child;
 mod fw;
 mod game;
 mod gen;
@@ -10,6 +12,9 @@ mod world;
 
 use fw::Ctx;
 
+#[global_allocator]
+static GLOBAL: alloc::Counting = alloc::Counting;
+
 fn usage() -> ! {
     eprintln!("usage: ggrs-verif check <ID> [--tier quick|thorough] [--seed N] [--case ID] [--replay FILE] [--scale X] [-v] [--no-evidence]");
     std::process::exit(2);
@@ -18,6 +23,26 @@ fn usage() -> ! {
 fn main() {
     base::install_panic_hook();
     let args: Vec<String> = std::env::args().collect();
+    if args.len() >= 4 && args[1] == "worker" {
+        // child process for workloads that may abort: counting allocator on, 256 MiB cap per request
+        let a: serde_json::Value = serde_json::from_str(&args[3]).expect("worker args are not JSON");
+        alloc::enable(256 << 20);
+        // a runaway worker must die instead of exhausting the machine
+        unsafe {
+            let lim = libc::rlimit { rlim_cur: 3 << 30, rlim_max: 3 << 30 };
+            libc::setrlimit(libc::RLIMIT_AS, &lim);
+        }
+        match args[2].as_str() {
+            "c14sweep" => props::c14::worker_sweep(&a),
+            "c14hostile" => props::c14::worker_hostile(&a),
+            "c08world" => props::c08::worker(&a),
+            other => {
+                eprintln!("unknown worker {other}");
+                std::process::exit(2);
+            }
+        }
+        return;
+    }
     if args.len() < 3 || args[1] != "check" {
         usage();
     }
@@ -86,11 +111,13 @@ fn main() {
         "C05" => props::c05::check(&ctx),
         "C06" => props::c06::check(&ctx),
         "C07" => props::c07::check(&ctx),
+        "C08" => props::c08::check(&ctx),
         "C09" => props::c09::check(&ctx),
         "C10" => props::c10::check(&ctx),
         "C11" => props::c11::check(&ctx),
         "C12" => props::c12::check(&ctx),
         "C13" => props::c13::check(&ctx),
+        "C14" => props::c14::check(&ctx),
         _ => {
             eprintln!("unknown property {prop}");
             2
